@@ -4,6 +4,7 @@ go 1.24
 
 require (
 	github.com/B1NARY-GR0UP/originium v0.0.0-00010101000000-000000000000
+	github.com/klauspost/compress v1.17.11
 	golang.org/x/tools v0.29.0
 )
 
@@ -12,7 +13,6 @@ require (
 	github.com/bytedance/gopkg v0.1.1 // indirect
 	github.com/cloudwego/frugal v0.2.1 // indirect
 	github.com/cloudwego/gopkg v0.1.2 // indirect
-	github.com/klauspost/compress v1.17.11 // indirect
 	github.com/spaolacci/murmur3 v1.1.0 // indirect
 	golang.org/x/mod v0.22.0 // indirect
 	golang.org/x/sync v0.10.0 // indirect
